@@ -4,6 +4,7 @@
 # the quick check of the targeted property against it. 'break' edits must give exit 1,
 # 'keep' edits (behaviour-preserving) must give exit 0 on every claimed property.
 # usage: sensitivity.sh [mutants|seeded|all] [name-filter]
+main() {
 set -u
 VERIF="$(cd "$(dirname "$0")" && pwd)"
 what="${1:-mutants}"; filter="${2:-}"
@@ -49,3 +50,5 @@ bad=[r for r in rows if not r.get('ok')]
 print(f"{len(rows)} checks, {len(bad)} unexpected")
 for r in bad: print("UNEXPECTED",r)
 PY
+}
+main "$@"
